@@ -5,11 +5,11 @@
   GIVerif/Model/Types.lean and GIVerif/Model/Defaults.lean.
 
   Hypotheses beyond the property's own wording:
-  * `C02_ctype_kept_partial`: `NoQualifiedVoid t` — the pointee at the bottom of the type is not a
-    const/volatile-qualified `void`.  On that input class the real code drops the qualifier
-    (`const void *p` is written c:type="void*"): witness `C02_ctype_kept_counterexample`, the full
-    statement is kept as `C02_ctype_kept_full` (finding reported by harness/c02.py).
-  * `C02_ctype_kept_*` star count: type names contain no `*` (C identifiers).
+  * `C02_ctype_kept`: none for the spelling (it is the full statement, for every type tree, including
+    const/volatile-qualified `void` pointees: `const void *p` is written c:type="const void*" since /repo
+    1f72dc6); the star-count conjunct assumes type names contain no `*` (C identifiers); the conjunct about
+    the WRITTEN attribute (`GIRWriter._write_type` falls back to the plain ctype when the complete one is
+    empty) assumes the spelling is not empty (a nameless base type without qualifiers or pointer levels).
   * `C02_callbacks`: none for the grouping; the written closure/destroy INDEX equals the position of
     the user-data / destroy parameter when no earlier parameter has the same name (C forbids duplicate
     parameter names).
@@ -38,7 +38,7 @@ theorem C02_source_shape :
     Gen.createCallbackShape =
       ["if symbol.base_type.type Eq CTYPE_FUNCTION", ".paramtype = symbol.base_type", ".retvaltype = symbol.base_type.base_type", "else", ".if symbol.base_type.type Eq CTYPE_POINTER", "..paramtype = symbol.base_type.base_type", "..retvaltype = symbol.base_type.base_type.base_type", "parameters = list(self._create_parameters(symbol,paramtype))", "retval = self._create_return(retvaltype)", "for (i,param) in enumerate(parameters)", ".if (param.type.target_fundamental Eq 'gpointer' And param.argname Eq 'user_data')", "..param.closure_name = param.argname", "if member", ".name = symbol.ident", "else", ".if symbol.ident.find('_') Gt 0", "..name = self._strip_symbol(symbol)", ".else", "..name = self.strip_identifier(symbol.ident)", "callback = ast.Callback(name,retval,parameters,False,ctype=symbol.ident)", "callback.add_symbol_reference(symbol)", "return callback"] ∧
     Gen.createCompleteSourceTypeShape =
-      ["assert source_type IsNot None", "const = (source_type.type_qualifier BitAnd TYPE_QUALIFIER_CONST)", "volatile = (source_type.type_qualifier BitAnd TYPE_QUALIFIER_VOLATILE)", "if source_type.type Eq CTYPE_VOID", ".return 'void'", "else", ".if source_type.type In (CTYPE_BASIC_TYPE,CTYPE_TYPEDEF,CTYPE_STRUCT,CTYPE_UNION,CTYPE_ENUM)", "..value = source_type.name", "..if const", "...value = ('const ' Add value)", "..if volatile", "...value = ('volatile ' Add value)", "..return value", ".else", "..if (source_type.type Eq CTYPE_POINTER Or (source_type.type Eq CTYPE_ARRAY And is_parameter))", "...value = (self._create_complete_source_type(source_type.base_type) Add '*')", "...if const", "....value Add= ' const'", "...if volatile", "....value Add= ' volatile'", "...return value", "..else", "...if source_type.type Eq CTYPE_ARRAY", "....return self._create_complete_source_type(source_type.base_type)", "...else", "....if const", ".....value = 'gconstpointer'", "....else", ".....value = 'gpointer'", "....if volatile", ".....value = ('volatile ' Add value)", "....return value"] ∧
+      ["assert source_type IsNot None", "const = (source_type.type_qualifier BitAnd TYPE_QUALIFIER_CONST)", "volatile = (source_type.type_qualifier BitAnd TYPE_QUALIFIER_VOLATILE)", "if source_type.type In (CTYPE_VOID,CTYPE_BASIC_TYPE,CTYPE_TYPEDEF,CTYPE_STRUCT,CTYPE_UNION,CTYPE_ENUM)", ".if source_type.type Eq CTYPE_VOID", "..value = 'void'", ".else", "..value = source_type.name", ".if const", "..value = ('const ' Add value)", ".if volatile", "..value = ('volatile ' Add value)", ".return value", "else", ".if (source_type.type Eq CTYPE_POINTER Or (source_type.type Eq CTYPE_ARRAY And is_parameter))", "..value = (self._create_complete_source_type(source_type.base_type) Add '*')", "..if const", "...value Add= ' const'", "..if volatile", "...value Add= ' volatile'", "..return value", ".else", "..if source_type.type Eq CTYPE_ARRAY", "...return self._create_complete_source_type(source_type.base_type)", "..else", "...if const", "....value = 'gconstpointer'", "...else", "....value = 'gpointer'", "...if volatile", "....value = ('volatile ' Add value)", "...return value"] ∧
     Gen.createSourceTypeShape =
       ["assert source_type IsNot None", "if source_type.type Eq CTYPE_VOID", ".value = 'void'", "else", ".if source_type.type Eq CTYPE_BASIC_TYPE", "..value = source_type.name", ".else", "..if source_type.type Eq CTYPE_TYPEDEF", "...value = source_type.name", "..else", "...if (source_type.type Eq CTYPE_POINTER Or (source_type.type Eq CTYPE_ARRAY And is_parameter))", "....value = (self._create_source_type(source_type.base_type) Add '*')", "...else", "....if source_type.type Eq CTYPE_ARRAY", ".....return self._create_source_type(source_type.base_type)", "....else", ".....value = 'gpointer'", "return value"] ∧
     Gen.createTypeFromBaseShape =
@@ -168,21 +168,19 @@ theorem C02_canon_idem (s : Str) : canonicalize (canonicalize s) = canonicalize 
 
 /-! ### the original C spelling is kept as c:type -/
 
-/-- The statement at full strength: for EVERY type tree the written c:type is the documented spelling —
-    base name with `const`/`volatile` in front iff the innermost pointee is so qualified, then exactly one
-    `*` per pointer level (a parameter's outermost array decays to one level, other arrays to none), each
-    followed by that level's own qualifiers. -/
-def C02_ctype_kept_full : Prop :=
-  ∀ (t : CType) (isParameter isReturn : Bool),
-    (createTypeFromBase t isParameter isReturn).complete = spelled t isParameter
-
-/-- Proved for every type whose innermost pointee is not a qualified `void`: the complete c:type is
-    the documented spelling; the plain ctype used for type lookup is the qualifier-free base name followed
-    by exactly `ptrDepth` stars; the `is_const` flag that drives "const ⇒ transfer none" is the constness of
-    the IMMEDIATE pointee (not of deeper or shallower levels); when no name contains `*` the written c:type
-    has exactly `ptrDepth` stars; parameter arrays decay once, other arrays not at all. -/
-theorem C02_ctype_kept_partial (t : CType) (isParameter isReturn : Bool) (h : NoQualifiedVoid t) :
+/-- The statement at full strength, for EVERY type tree (no side condition on the type): the written
+    c:type is the documented spelling — base name with `const`/`volatile` in front iff the innermost pointee
+    is so qualified (`void` included), then exactly one `*` per pointer level (a parameter's outermost array
+    decays to one level, other arrays to none), each followed by that level's own qualifiers; the plain
+    ctype used for type lookup is the qualifier-free base name followed by exactly `ptrDepth` stars; the
+    `is_const` flag that drives "const ⇒ transfer none" is the constness of the IMMEDIATE pointee (not of
+    deeper or shallower levels); when no name contains `*` the written c:type has exactly `ptrDepth` stars;
+    parameter arrays decay once, other arrays not at all.  The complete spelling is what the writer puts
+    into the c:type attribute (second conjunct). -/
+theorem C02_ctype_kept (t : CType) (isParameter isReturn : Bool) :
     (createTypeFromBase t isParameter isReturn).complete = spelled t isParameter ∧
+    (spelled t isParameter ≠ [] →
+      writtenCtype (createTypeFromBase t isParameter isReturn) = spelled t isParameter) ∧
     (createTypeFromBase t isParameter isReturn).ctype = baseName (baseOf t) ++ stars (ptrDepth t isParameter) ∧
     (createTypeFromBase t isParameter isReturn).isConst = pointeeConst t ∧
     ('*' ∉ baseSpelling (baseOf t) →
@@ -192,8 +190,12 @@ theorem C02_ctype_kept_partial (t : CType) (isParameter isReturn : Bool) (h : No
   obtain ⟨h1, h2, h3⟩ := createTypeFromCtypeString_fields (createSourceType t isParameter) (pointeeConst t) isReturn
     (createCompleteSourceType t isParameter)
   have hc : (createTypeFromBase t isParameter isReturn).complete = spelled t isParameter := by
-    unfold createTypeFromBase; rw [h3]; exact complete_eq_spelled t isParameter h
-  refine ⟨hc, ?_, ?_, ?_, ?_, ?_⟩
+    unfold createTypeFromBase; rw [h3]; exact complete_eq_spelled t isParameter
+  refine ⟨hc, ?_, ?_, ?_, ?_, ?_, ?_⟩
+  · intro hne
+    unfold writtenCtype
+    rw [hc, if_neg]
+    simpa only [List.isEmpty_iff] using hne
   · unfold createTypeFromBase; rw [h1]; exact source_eq t isParameter
   · unfold createTypeFromBase; exact h2
   · intro hn
@@ -206,21 +208,15 @@ theorem C02_ctype_kept_partial (t : CType) (isParameter isReturn : Bool) (h : No
   · intro q u
     simp [ptrDepth, levels]
 
-/-- The excluded input class is real: `const void *` is written `void*`. -/
-theorem C02_ctype_kept_counterexample :
-    writtenCtype (paramType (.ptr Qual.plain (.void ⟨true, false⟩))) = "void*".toList ∧
-    spelled (.ptr Qual.plain (.void ⟨true, false⟩)) true = "const void*".toList ∧
-    ¬ C02_ctype_kept_full := by
-  have h1 : writtenCtype (paramType (.ptr Qual.plain (.void ⟨true, false⟩))) = "void*".toList := by decide +kernel
-  have h2 : spelled (.ptr Qual.plain (.void ⟨true, false⟩)) true = "const void*".toList := by decide +kernel
-  refine ⟨h1, h2, ?_⟩
-  intro hfull
-  have := hfull (.ptr Qual.plain (.void ⟨true, false⟩)) true false
-  rw [h2] at this
-  have h3 : (createTypeFromBase (.ptr Qual.plain (.void ⟨true, false⟩)) true false).complete = "void*".toList := by
-    decide +kernel
-  rw [h3] at this
-  exact absurd this (by decide)
+/-- The input class that used to be excluded (a qualified `void` pointee) now keeps its spelling:
+    `const void *` is written `const void*`, `volatile const void *const` likewise. -/
+theorem C02_ctype_kept_qualified_void :
+    writtenCtype (paramType (.ptr Qual.plain (.void ⟨true, false⟩))) = "const void*".toList ∧
+    writtenCtype (returnType (.ptr Qual.plain (.void ⟨true, false⟩))) = "const void*".toList ∧
+    writtenCtype (plainType (.ptr ⟨true, false⟩ (.void ⟨true, true⟩))) = "volatile const void* const".toList ∧
+    (paramType (.ptr Qual.plain (.void ⟨true, false⟩))).kind = .fundamental "gpointer".toList ∧
+    (paramType (.ptr Qual.plain (.void ⟨true, false⟩))).isConst = true := by
+  decide +kernel
 
 /-! ### documented ownership defaults -/
 
@@ -444,8 +440,8 @@ example : (transferDefault .parameter false (some .out) false intTy).toOption = 
 example : (transferDefault .return_ true none false (klassTy true)).toOption = some (some .none) ∧
     (transferDefault .return_ true none false (klassTy false)).toOption = some (some .full) ∧
     (transferDefault .return_ false none false (klassTy false)).toOption = some none := by decide +kernel
-example : NoQualifiedVoid (.ptr ⟨true, false⟩ (.ptr Qual.plain (.basic ⟨true, false⟩ "char".toList))) := by
-  intro q h; simp [baseOf] at h
+example : spelled (.ptr Qual.plain (.void ⟨true, false⟩)) true = "const void*".toList := by decide +kernel
+example : '*' ∉ baseSpelling (baseOf (.ptr Qual.plain (.void ⟨true, false⟩))) := by decide +kernel
 example : spelled (.ptr ⟨true, false⟩ (.ptr Qual.plain (.basic ⟨true, false⟩ "char".toList))) true
     = "const char** const".toList := by decide +kernel
 example : (createTypeFromBase (.array Qual.plain (.ptr Qual.plain (.typedef ⟨true, true⟩ "FooRec".toList)) (some 4))
